@@ -185,3 +185,38 @@ def shrink_list(lst, minlen=0):
 
 def tb_summary(tb):
     return [model.summary(s) for s in tb[:3]]
+
+
+def real_crosscheck(sim, st, spec, obs, stdout=False):
+    """Stub fidelity: run the cli-only sessions of spec once more as real processes on a real
+    directory (Sim.run_real) and compare exit statuses, produced files and (optionally) stdout
+    with the simulated observation obs.  A disagreement is a harness warning, never a verdict
+    on the property."""
+    if obs.get("hang") or spec.get("harvest_inputs") or spec.get("faults"):
+        return
+    for s in spec["sessions"]:
+        if any(op[0] != "cli" for op in s["ops"]):
+            return
+    robs = sim.run_real(spec)
+    st.check("real_subprocess_scenarios")
+    st.check("real_subprocess_commands", sum(len(s["ops"]) for s in spec["sessions"]))
+    st.check("real_subprocess_disagreements", 0)
+    problems = []
+    for s in spec["sessions"]:
+        sid = s.get("id", "s0")
+        a = obs["sessions"].get(sid, [])
+        b = robs["sessions"].get(sid, [])
+        ea = [0 if ("exc" not in o and o["ok"].get("exit") == 0) else 1 for o in a]
+        eb = [0 if ("exc" not in o and o["ok"].get("exit") == 0) else 1 for o in b]
+        if ea != eb:
+            problems.append("exit statuses sim=%r real=%r" % (ea, eb))
+        elif stdout and [o.get("out", "") for o in a] != [o.get("out", "") for o in b]:
+            problems.append("stdout differs")
+    if obs["files"] != robs["files"]:
+        problems.append("files differ: %r" % sorted(
+            p for p in set(obs["files"]) | set(robs["files"])
+            if obs["files"].get(p) != robs["files"].get(p))[:5])
+    if problems:
+        st.check("real_subprocess_disagreements")
+        st.d.setdefault("notes", []).append("real-subprocess cross-check disagrees: "
+                                            + "; ".join(problems))
